@@ -21,7 +21,7 @@ func vfVersionAtLeast(v, min string) bool {
 }
 
 func vfGenProdConf(t *rapid.T, emph string) vfProdConf {
-	c := vfProdConf{Level: -1000, ReadTimeoutMs: 1000, MetaRetryMax: 2}
+	c := vfProdConf{Level: -1000, ReadTimeoutMs: 3000, MetaRetryMax: 2}
 	vs := vfVersionList
 	if emph == "C05" {
 		vs = vfVersionList[4:]
